@@ -3,6 +3,7 @@ package main
 // C17: JSON output. Also the generic type-assertion rule used by C09.R7.
 
 import (
+	"encoding/json"
 	"fmt"
 	"go/constant"
 	"go/token"
@@ -588,4 +589,150 @@ func ruleJSONRenderings(c *Ctx, rule string) {
 		}
 		sort.Strings(descs)
 	}
+}
+
+// ruleJSONTextUntouched implements C17.R5: what the four renderings return is the text encoding/json produced, converted to a
+// string and nothing else. A textual rewrite of encoded JSON cannot tell an escape sequence from data.
+func ruleJSONTextUntouched(c *Ctx, rule string) {
+	r := c.R
+	trims := map[string]bool{"strings.TrimSpace": true, "strings.TrimRight": true, "strings.TrimSuffix": true, "bytes.TrimSpace": true, "bytes.TrimRight": true, "bytes.TrimSuffix": true}
+	type frame struct {
+		bind map[*ssa.Parameter]ssa.Value
+		up   *frame
+	}
+	// origin: "" = encoder output; otherwise a problem. und=true when the origin cannot be followed.
+	var origin func(v ssa.Value, fr *frame, depth int, seen map[ssa.Value]bool) (problem string, und bool)
+	fromEncoder := func(v ssa.Value, fr *frame) bool {
+		p, u := origin(v, fr, 0, map[ssa.Value]bool{})
+		return p == "" && !u
+	}
+	origin = func(v ssa.Value, fr *frame, depth int, seen map[ssa.Value]bool) (string, bool) {
+		if depth > 12 {
+			return "", true
+		}
+		if seen[v] {
+			return "", false
+		}
+		seen[v] = true
+		switch x := v.(type) {
+		case *ssa.Convert:
+			return origin(x.X, fr, depth+1, seen)
+		case *ssa.ChangeType:
+			return origin(x.X, fr, depth+1, seen)
+		case *ssa.Const:
+			if x.Value != nil && x.Value.Kind() == constant.String && json.Valid([]byte(constant.StringVal(x.Value))) {
+				return "", false
+			}
+			return "the constant " + exprStr(x) + " is returned instead of encoder output", false
+		case *ssa.Phi:
+			for _, e := range x.Edges {
+				if p, u := origin(e, fr, depth+1, seen); p != "" || u {
+					return p, u
+				}
+			}
+			return "", false
+		case *ssa.Parameter:
+			if fr != nil {
+				if b, ok := fr.bind[x]; ok {
+					return origin(b, fr.up, depth+1, seen)
+				}
+			}
+			return "", true
+		case *ssa.Extract:
+			if call, ok := x.Tuple.(*ssa.Call); ok {
+				if sc := call.Call.StaticCallee(); sc != nil && sc.Pkg != nil && sc.Pkg.Pkg.Path() == "encoding/json" && strings.HasPrefix(sc.Name(), "Marshal") {
+					return "", false
+				}
+				if sc := call.Call.StaticCallee(); sc != nil && c.isRepoFn(sc) && len(sc.Blocks) > 0 {
+					nf := &frame{bind: map[*ssa.Parameter]ssa.Value{}, up: fr}
+					for i, p := range sc.Params {
+						if i < len(call.Call.Args) {
+							nf.bind[p] = call.Call.Args[i]
+						}
+					}
+					var prob string
+					und := false
+					instrsOf(sc, func(in ssa.Instruction) {
+						if ret, ok := in.(*ssa.Return); ok && x.Index < len(ret.Results) {
+							if p, u := origin(ret.Results[x.Index], nf, depth+1, seen); p != "" || u {
+								prob, und = p, u
+							}
+						}
+					})
+					return prob, und
+				}
+			}
+			return "", true
+		case *ssa.Call:
+			sc := x.Call.StaticCallee()
+			if sc == nil {
+				return "", true
+			}
+			if c.isRepoFn(sc) && len(sc.Blocks) > 0 {
+				nf := &frame{bind: map[*ssa.Parameter]ssa.Value{}, up: fr}
+				for i, p := range sc.Params {
+					if i < len(x.Call.Args) {
+						nf.bind[p] = x.Call.Args[i]
+					}
+				}
+				var prob string
+				und := false
+				instrsOf(sc, func(in ssa.Instruction) {
+					if ret, ok := in.(*ssa.Return); ok && len(ret.Results) > 0 {
+						if p, u := origin(ret.Results[0], nf, depth+1, seen); p != "" || u {
+							prob, und = p, u
+						}
+					}
+				})
+				return prob, und
+			}
+			full := ""
+			if sc.Pkg != nil {
+				full = sc.Pkg.Pkg.Name() + "." + sc.Name()
+			}
+			if trims[full] && len(x.Call.Args) > 0 {
+				return origin(x.Call.Args[0], fr, depth+1, seen)
+			}
+			for _, a := range x.Call.Args {
+				if fromEncoder(a, fr) {
+					return "the encoded text is rewritten by " + fnName(sc) + " after encoding", false
+				}
+			}
+			return "", true
+		}
+		return "", true
+	}
+	n := 0
+	for _, typ := range []string{"Matches", "Match"} {
+		for _, m := range []string{"Json", "FormattedJson"} {
+			fn := c.Method("engine", typ, m)
+			if fn == nil {
+				continue // reported by C17.R4
+			}
+			n++
+			ob := r.Ob(rule, "engine."+typ+"."+m+" returns the encoder's text unmodified", c.pos(fn.Pos()))
+			prob, und := "", false
+			nret := 0
+			instrsOf(fn, func(in ssa.Instruction) {
+				if ret, ok := in.(*ssa.Return); ok && len(ret.Results) > 0 {
+					nret++
+					if p, u := origin(ret.Results[0], nil, 0, map[ssa.Value]bool{}); p != "" || u {
+						if prob == "" {
+							prob = p
+						}
+						und = und || u
+					}
+				}
+			})
+			switch {
+			case prob != "":
+				ob.Bad(prob + ": a textual rewrite of encoded JSON cannot tell an escape sequence from data, so some text yields an invalid or different document")
+			case und || nret == 0:
+				ob.Und("the returned text could not be followed back to an encoding/json call")
+			default:
+				ob.OKnt("every return is string(bytes returned by json.Marshal/MarshalIndent), possibly trimmed")
+			}
+		}
+	}
+	r.Floor(rule, "JSON renderings", n, 4)
 }
